@@ -1,0 +1,527 @@
+//! Controllable runtime for the external verification harness.
+//!
+//! Only compiled with `--cfg tiny_http_verif`. It provides `Mutex`, `Condvar` and `Instant` with the
+//! std signatures used by `util/messages_queue.rs`. A thread that was started through
+//! [`run`] / [`spawn`] is *controlled*: exactly one controlled thread runs at a time, every
+//! synchronisation operation is a scheduling point decided by a seeded (or replayed) schedule,
+//! timed waits are ended by a virtual clock that only moves when a timer fires, and every event is
+//! recorded. Every other thread (the normal case, including the whole test suite) goes straight to
+//! the std primitives: the types are plain pass-through wrappers then.
+use std::cell::Cell;
+use std::ops::{Deref, DerefMut};
+use std::sync::{Condvar as SCondvar, Mutex as SMutex, MutexGuard as SGuard};
+use std::time::Duration;
+
+thread_local! { static TID: Cell<usize> = Cell::new(usize::MAX); }
+fn me() -> usize {
+    TID.with(|t| t.get())
+}
+const NONE: usize = usize::MAX;
+
+/// What the runtime saw, in order.
+#[derive(Clone, Debug, PartialEq)]
+pub enum Ev {
+    /// the thread acquired the mutex
+    Acq { tid: usize, mx: usize },
+    /// the thread entered a (timed) wait on the condition variable, releasing the mutex
+    Wait { tid: usize, cv: usize, timeout_ns: Option<u64> },
+    /// notify_one: the waiter that was woken, if any was waiting
+    Notify { tid: usize, cv: usize, woken: Option<usize> },
+    NotifyAll { tid: usize, cv: usize },
+    /// the timed wait of this thread was ended by the clock (which now shows `clock_ns`)
+    Fire { tid: usize, clock_ns: u64 },
+    /// a marker placed by the harness (no scheduling point)
+    Mark { tid: usize, text: String, clock_ns: u64 },
+}
+
+#[derive(Clone, Debug, PartialEq)]
+enum St {
+    Runnable,
+    Mx(usize),
+    Cv { cv: usize, deadline: Option<u64> },
+    Sleep(u64),
+    Join(usize),
+    Quiesce,
+    Done,
+}
+struct Th {
+    st: St,
+    timed_out: bool,
+}
+struct Sched {
+    th: Vec<Th>,
+    cur: usize,
+    clock: u64,
+    rng: u64,
+    owners: Vec<Option<usize>>,
+    ncv: usize,
+    abort: bool,
+    deadlock: Option<String>,
+    choices: Vec<u8>,
+    replay: Option<Vec<u8>>,
+    steps: usize,
+    trace: Vec<Ev>,
+}
+struct Abort;
+static S: SMutex<Option<Sched>> = SMutex::new(None);
+static C: SCondvar = SCondvar::new();
+
+fn rnd(s: &mut Sched, n: usize) -> usize {
+    let v = if let Some(r) = &s.replay {
+        *r.get(s.choices.len()).unwrap_or(&0) as usize % n
+    } else {
+        s.rng ^= s.rng << 13;
+        s.rng ^= s.rng >> 7;
+        s.rng ^= s.rng << 17;
+        (s.rng % n as u64) as usize
+    };
+    s.choices.push(v as u8);
+    v
+}
+
+// who runs next: a runnable thread, or the earliest timer fires (the clock jumps to its deadline)
+fn pick(s: &mut Sched) -> Option<usize> {
+    s.steps += 1;
+    let runnable: Vec<usize> = (0..s.th.len()).filter(|&i| s.th[i].st == St::Runnable).collect();
+    let timed: Vec<(usize, u64)> = (0..s.th.len())
+        .filter_map(|i| match s.th[i].st {
+            St::Cv { deadline: Some(d), .. } | St::Sleep(d) => Some((i, d)),
+            _ => None,
+        })
+        .collect();
+    if runnable.is_empty() {
+        if let Some(i) = (0..s.th.len()).find(|&i| s.th[i].st == St::Quiesce) {
+            s.th[i].st = St::Runnable;
+            return Some(i);
+        }
+    }
+    if runnable.is_empty() && timed.is_empty() {
+        return None;
+    }
+    // a timer may fire while others are runnable: a time-out racing a notification
+    let fire = if runnable.is_empty() {
+        true
+    } else if timed.is_empty() {
+        false
+    } else {
+        rnd(s, 4) == 0
+    };
+    if fire {
+        let (i, d) = *timed.iter().min_by_key(|x| x.1).unwrap();
+        if d > s.clock {
+            s.clock = d;
+        }
+        if let St::Cv { .. } = s.th[i].st {
+            s.th[i].timed_out = true;
+            let c = s.clock;
+            s.trace.push(Ev::Fire { tid: i, clock_ns: c });
+        }
+        s.th[i].st = St::Runnable;
+        Some(i)
+    } else {
+        let k = rnd(s, runnable.len());
+        Some(runnable[k])
+    }
+}
+
+fn lock_s() -> SGuard<'static, Option<Sched>> {
+    S.lock().unwrap_or_else(|e| e.into_inner())
+}
+
+fn wait_turn(mut g: SGuard<'static, Option<Sched>>, me: usize) -> SGuard<'static, Option<Sched>> {
+    loop {
+        {
+            let s = g.as_ref().unwrap();
+            if s.abort {
+                drop(g);
+                std::panic::resume_unwind(Box::new(Abort));
+            }
+            if s.cur == me && s.th[me].st == St::Runnable {
+                return g;
+            }
+        }
+        g = C.wait(g).unwrap_or_else(|e| e.into_inner());
+    }
+}
+
+fn describe(s: &Sched) -> String {
+    format!("clock={}ns states={:?}", s.clock, s.th.iter().map(|t| format!("{:?}", t.st)).collect::<Vec<_>>())
+}
+
+// the calling thread has already set its own state (Runnable = plain yield)
+fn reschedule(mut g: SGuard<'static, Option<Sched>>, me: usize, wait: bool) -> Option<SGuard<'static, Option<Sched>>> {
+    {
+        let s = g.as_mut().unwrap();
+        match pick(s) {
+            Some(n) => s.cur = n,
+            None => {
+                if s.th.iter().any(|t| t.st != St::Done) {
+                    s.deadlock = Some(describe(s));
+                }
+                s.abort = true;
+            }
+        }
+    }
+    C.notify_all();
+    if wait {
+        Some(wait_turn(g, me))
+    } else {
+        None
+    }
+}
+
+fn wake_joiners(s: &mut Sched, t: usize) {
+    for x in s.th.iter_mut() {
+        if x.st == St::Join(t) {
+            x.st = St::Runnable;
+        }
+    }
+}
+
+pub struct JoinHandle {
+    tid: usize,
+    os: Option<std::thread::JoinHandle<()>>,
+}
+impl JoinHandle {
+    pub fn tid(&self) -> usize {
+        self.tid
+    }
+    pub fn join(mut self) {
+        let m = me();
+        let mut g = lock_s();
+        if g.as_ref().unwrap().th[self.tid].st != St::Done {
+            g.as_mut().unwrap().th[m].st = St::Join(self.tid);
+            g = reschedule(g, m, true).unwrap();
+        }
+        drop(g);
+        self.os.take().unwrap().join().ok();
+    }
+}
+
+/// Starts a controlled thread (only from a controlled thread, inside [`run`]).
+pub fn spawn<F: FnOnce() + Send + 'static>(f: F) -> JoinHandle {
+    let tid = {
+        let mut g = lock_s();
+        let s = g.as_mut().unwrap();
+        s.th.push(Th { st: St::Runnable, timed_out: false });
+        s.th.len() - 1
+    };
+    let os = std::thread::spawn(move || {
+        TID.with(|t| t.set(tid));
+        let r = std::panic::catch_unwind(std::panic::AssertUnwindSafe(|| {
+            let g = wait_turn(lock_s(), tid);
+            drop(g);
+            f();
+        }));
+        let aborted = matches!(&r, Err(e) if e.is::<Abort>());
+        let mut g = lock_s();
+        if let Some(s) = g.as_mut() {
+            s.th[tid].st = St::Done;
+            wake_joiners(s, tid);
+            if !aborted && !s.abort {
+                reschedule(g, tid, false);
+            }
+        }
+    });
+    JoinHandle { tid, os: Some(os) }
+}
+
+pub struct Outcome {
+    /// Some(description) when the run ended with threads blocked for ever
+    pub deadlock: Option<String>,
+    /// states of the threads at the end ("Done", "Cv{..}", ...)
+    pub final_states: Vec<String>,
+    pub choices: Vec<u8>,
+    pub clock_ns: u64,
+    pub steps: usize,
+    pub trace: Vec<Ev>,
+}
+
+/// Runs `f` as controlled thread 0 under the schedule given by `seed` (or replayed from `replay`).
+pub fn run<F: FnOnce()>(seed: u64, replay: Option<Vec<u8>>, f: F) -> Outcome {
+    {
+        let mut g = lock_s();
+        *g = Some(Sched {
+            th: vec![Th { st: St::Runnable, timed_out: false }],
+            cur: 0,
+            clock: 0,
+            rng: (seed.wrapping_mul(0x9E3779B97F4A7C15)) | 1,
+            owners: vec![],
+            ncv: 0,
+            abort: false,
+            deadlock: None,
+            choices: vec![],
+            replay,
+            steps: 0,
+            trace: vec![],
+        });
+    }
+    TID.with(|t| t.set(0));
+    let _ = std::panic::catch_unwind(std::panic::AssertUnwindSafe(f));
+    let mut g = lock_s();
+    {
+        let s = g.as_mut().unwrap();
+        s.th[0].st = St::Done;
+        wake_joiners(s, 0);
+        if !s.abort && s.th.iter().any(|t| t.st != St::Done) {
+            match pick(s) {
+                Some(n) => s.cur = n,
+                None => {
+                    s.deadlock = Some(describe(s));
+                    s.abort = true;
+                }
+            }
+        }
+    }
+    C.notify_all();
+    let mut final_states: Option<Vec<String>> = None;
+    loop {
+        {
+            let s = g.as_ref().unwrap();
+            if s.abort && final_states.is_none() {
+                final_states = Some(s.th.iter().map(|t| format!("{:?}", t.st)).collect());
+            }
+            if s.th.iter().all(|t| t.st == St::Done) {
+                break;
+            }
+        }
+        g = C.wait_timeout(g, Duration::from_millis(20)).unwrap_or_else(|e| e.into_inner()).0;
+    }
+    TID.with(|t| t.set(NONE));
+    let s = g.take().unwrap();
+    let fs = final_states.unwrap_or_else(|| s.th.iter().map(|t| format!("{:?}", t.st)).collect());
+    Outcome { deadlock: s.deadlock, final_states: fs, choices: s.choices, clock_ns: s.clock, steps: s.steps, trace: s.trace }
+}
+
+/// Returns when no other controlled thread can run; virtual time does not advance.
+pub fn quiesce() {
+    let m = me();
+    let mut g = lock_s();
+    g.as_mut().unwrap().th[m].st = St::Quiesce;
+    drop(reschedule(g, m, true));
+}
+
+pub fn sleep(d: Duration) {
+    let m = me();
+    let mut g = lock_s();
+    let s = g.as_mut().unwrap();
+    s.th[m].timed_out = false;
+    s.th[m].st = St::Sleep(s.clock + d.as_nanos() as u64);
+    drop(reschedule(g, m, true));
+}
+
+/// Records a marker in the trace (no scheduling point).
+pub fn mark(text: &str) {
+    let m = me();
+    if m == NONE {
+        return;
+    }
+    let mut g = lock_s();
+    if let Some(s) = g.as_mut() {
+        let c = s.clock;
+        s.trace.push(Ev::Mark { tid: m, text: text.to_string(), clock_ns: c });
+    }
+}
+
+// ---------------- facade types ----------------
+pub struct Mutex<T> {
+    id: usize,
+    inner: SMutex<T>,
+}
+pub struct MutexGuard<'a, T> {
+    m: &'a Mutex<T>,
+    g: Option<SGuard<'a, T>>,
+    controlled: bool,
+}
+impl<T> Mutex<T> {
+    pub fn new(t: T) -> Mutex<T> {
+        let id = if me() == NONE {
+            NONE
+        } else {
+            let mut g = lock_s();
+            match g.as_mut() {
+                Some(s) => {
+                    s.owners.push(None);
+                    s.owners.len() - 1
+                }
+                None => NONE,
+            }
+        };
+        Mutex { id, inner: SMutex::new(t) }
+    }
+    pub fn lock(&self) -> Result<MutexGuard<'_, T>, ()> {
+        let m = me();
+        if m == NONE || self.id == NONE {
+            return Ok(MutexGuard { m: self, g: Some(self.inner.lock().unwrap_or_else(|e| e.into_inner())), controlled: false });
+        }
+        let mut g = lock_s();
+        g = reschedule(g, m, true).unwrap(); // preemption point before every acquisition
+        loop {
+            let s = g.as_mut().unwrap();
+            if s.owners[self.id].is_none() {
+                s.owners[self.id] = Some(m);
+                s.trace.push(Ev::Acq { tid: m, mx: self.id });
+                break;
+            }
+            s.th[m].st = St::Mx(self.id);
+            g = reschedule(g, m, true).unwrap();
+        }
+        drop(g);
+        Ok(MutexGuard { m: self, g: Some(self.inner.lock().unwrap_or_else(|e| e.into_inner())), controlled: true })
+    }
+}
+impl<'a, T> Deref for MutexGuard<'a, T> {
+    type Target = T;
+    fn deref(&self) -> &T {
+        self.g.as_ref().unwrap()
+    }
+}
+impl<'a, T> DerefMut for MutexGuard<'a, T> {
+    fn deref_mut(&mut self) -> &mut T {
+        self.g.as_mut().unwrap()
+    }
+}
+impl<'a, T> Drop for MutexGuard<'a, T> {
+    fn drop(&mut self) {
+        if self.g.is_none() {
+            return;
+        }
+        drop(self.g.take());
+        if self.controlled {
+            let mut g = lock_s();
+            if let Some(s) = g.as_mut() {
+                s.owners[self.m.id] = None;
+                for t in s.th.iter_mut() {
+                    if t.st == St::Mx(self.m.id) {
+                        t.st = St::Runnable;
+                    }
+                }
+            }
+        }
+    }
+}
+
+pub struct Condvar {
+    id: usize,
+    real: SCondvar,
+}
+pub struct WaitTimeoutResult(bool);
+impl WaitTimeoutResult {
+    pub fn timed_out(&self) -> bool {
+        self.0
+    }
+}
+impl Condvar {
+    pub fn new() -> Condvar {
+        let id = if me() == NONE {
+            NONE
+        } else {
+            let mut g = lock_s();
+            match g.as_mut() {
+                Some(s) => {
+                    s.ncv += 1;
+                    s.ncv - 1
+                }
+                None => NONE,
+            }
+        };
+        Condvar { id, real: SCondvar::new() }
+    }
+    fn wait_inner<'a, T>(&self, mut guard: MutexGuard<'a, T>, dur: Option<Duration>) -> (MutexGuard<'a, T>, bool) {
+        let mx = guard.m;
+        if !guard.controlled || self.id == NONE {
+            let inner = guard.g.take().unwrap();
+            return match dur {
+                None => {
+                    let i2 = self.real.wait(inner).unwrap_or_else(|e| e.into_inner());
+                    (MutexGuard { m: mx, g: Some(i2), controlled: false }, false)
+                }
+                Some(d) => {
+                    let (i2, r) = self.real.wait_timeout(inner, d).unwrap_or_else(|e| e.into_inner());
+                    (MutexGuard { m: mx, g: Some(i2), controlled: false }, r.timed_out())
+                }
+            };
+        }
+        let m = me();
+        drop(guard); // release and enqueue without a preemption point in between
+        let mut g = lock_s();
+        {
+            let s = g.as_mut().unwrap();
+            s.th[m].timed_out = false;
+            let dl = dur.map(|d| s.clock + d.as_nanos() as u64);
+            s.th[m].st = St::Cv { cv: self.id, deadline: dl };
+            s.trace.push(Ev::Wait { tid: m, cv: self.id, timeout_ns: dur.map(|d| d.as_nanos() as u64) });
+        }
+        g = reschedule(g, m, true).unwrap();
+        let to = g.as_ref().unwrap().th[m].timed_out;
+        drop(g);
+        (mx.lock().unwrap(), to)
+    }
+    pub fn wait<'a, T>(&self, guard: MutexGuard<'a, T>) -> Result<MutexGuard<'a, T>, ()> {
+        Ok(self.wait_inner(guard, None).0)
+    }
+    pub fn wait_timeout<'a, T>(&self, guard: MutexGuard<'a, T>, d: Duration) -> Result<(MutexGuard<'a, T>, WaitTimeoutResult), ()> {
+        let (g, to) = self.wait_inner(guard, Some(d));
+        Ok((g, WaitTimeoutResult(to)))
+    }
+    pub fn notify_all(&self) {
+        let m = me();
+        if m == NONE || self.id == NONE {
+            self.real.notify_all();
+            return;
+        }
+        let mut g = lock_s();
+        if let Some(s) = g.as_mut() {
+            for t in s.th.iter_mut() {
+                if matches!(t.st, St::Cv { cv, .. } if cv == self.id) {
+                    t.st = St::Runnable;
+                }
+            }
+            s.trace.push(Ev::NotifyAll { tid: m, cv: self.id });
+        }
+    }
+    pub fn notify_one(&self) {
+        let m = me();
+        if m == NONE || self.id == NONE {
+            self.real.notify_one();
+            return;
+        }
+        let mut g = lock_s();
+        let s = g.as_mut().unwrap();
+        let ws: Vec<usize> = (0..s.th.len()).filter(|&i| matches!(s.th[i].st, St::Cv { cv, .. } if cv == self.id)).collect();
+        let woken = if ws.is_empty() {
+            None
+        } else {
+            let k = rnd(s, ws.len());
+            s.th[ws[k]].st = St::Runnable;
+            Some(ws[k])
+        };
+        s.trace.push(Ev::Notify { tid: m, cv: self.id, woken });
+    }
+}
+
+#[derive(Clone, Copy)]
+pub enum Instant {
+    Real(std::time::Instant),
+    Virtual(u64),
+}
+impl Instant {
+    pub fn now() -> Instant {
+        if me() == NONE {
+            return Instant::Real(std::time::Instant::now());
+        }
+        match lock_s().as_ref() {
+            Some(s) => Instant::Virtual(s.clock),
+            None => Instant::Real(std::time::Instant::now()),
+        }
+    }
+    pub fn elapsed(&self) -> Duration {
+        match self {
+            Instant::Real(i) => i.elapsed(),
+            Instant::Virtual(t) => match lock_s().as_ref() {
+                Some(s) => Duration::from_nanos(s.clock - *t),
+                None => Duration::from_nanos(0),
+            },
+        }
+    }
+}
